@@ -19,7 +19,7 @@ THOROUGH_PODS = ["morning", "forenoon", "afternoon", "noon", "evening", "night",
                  "earlynoon", "lateevening", "verylateevening", "veryearlyafternoon"]
 MULTI_PODS = ["morning", "night", "veryearlymorning"]
 CLAUSES = {"C02": ["exc", "wf", "closure", "span"], "C01": ["exc", "wf"], "C15": ["frame"], "C12": ["frame"]}
-PER_RULE_QUICK = {"C02": 5, "C01": 2, "C15": 2, "C12": 1}
+PER_RULE_QUICK = {"C02": 4, "C01": 2, "C15": 2, "C12": 1}
 
 
 def wf_jobs(prop, tier, rules=None, cell=(2024, 2), lift=True, timeout=None, extra=None):
@@ -116,7 +116,7 @@ def wf_jobs(prop, tier, rules=None, cell=(2024, 2), lift=True, timeout=None, ext
             if pseudo == "@latent":
                 clock = [k for k in ishapes if "year" not in k and "hour" in k]
                 return tshapes + clock + [k for k in ishapes if k not in clock][::6]
-            return tshapes + ishapes[::3]
+            return tshapes + ishapes[::4]
         for pseudo, fnlist, allowed in (("@acc", [fn_id(TY.Time.start.fget), fn_id(TY.Time.end.fget), fn_id(TY.Time.dt.fget), fn_id(TY.Interval.start.fget), fn_id(TY.Interval.end.fget)], ["N"]),
                                         ("@latent", [fn_id(PL.apply_postprocessing_rules), fn_id(PL._latent_tod), fn_id(PL._latent_time_interval)],
                                          ["N", "T:year,month,day,hour,minute", "I:T:year,month,day,hour,minute|T:year,month,day,hour,minute"])):
